@@ -50,40 +50,58 @@ theorem epoch_complete_map (as : List Action) (s : State) (hnr : NoReset as)
   simp only [refStream, hm]
   exact ⟨h1, h2⟩
 
-/-- **C05/C10.**  `assert main_snapshot_idx == rcvd_idx - 1` in `_take_snapshot` never fires when no
-fetch fails, or when `snapshot_every_n_steps ≤ 1` — for every schedule. -/
+/-- **C05/C10 `take_snapshot_assertion_holds`, map-style, full strength.**  `assert main_snapshot_idx ==
+rcvd_idx - 1` in `_take_snapshot` never fires: for every snapshot interval, every set of failing fetches and
+every schedule.  (Since repo fix f1014eb a snapshot is due when the batch being yielded is a task that
+carries a main snapshot; before, yields were counted and a failing fetch broke the alignment — see `c10a`.) -/
 theorem take_snapshot_assertion_holds_map (as : List Action) (s : State) (hnr : NoReset as)
-    (hr : run c (init c) as = some s) (hd : ¬ died s) (hF : c.interval ≤ 1 ∨ errFree c) :
+    (hr : run c (init c) as = some s) (hd : ¬ died s) :
     Obs.assertion ∉ s.obs :=
-  (reach_map c hv hm hio as s hnr hr hd).2.noas hF
+  (reach_map c hv hm hio as s hnr hr hd).2.noas
 
-/-- **C10 `error_position`, provable part.**  With `snapshot_every_n_steps ≤ 1` or no failing fetch, the
-consumer's observations (batches and re-raised errors) are exactly the reference stream with the
-failing entries replaced by the error, position by position, for every schedule. -/
-theorem error_position_partial_map (as : List Action) (s : State) (hnr : NoReset as)
-    (hr : run c (init c) as = some s) (hd : ¬ died s) (hF : c.interval ≤ 1 ∨ errFree c) :
+/-- **C10 `error_position`, map-style, full strength.**  For every interval and every set of failing
+fetches the consumer's observations (batches and re-raised errors) are exactly the reference stream with
+the failing entries replaced by the error, position by position, for every schedule; nothing is lost. -/
+theorem error_position_map (as : List Action) (s : State) (hnr : NoReset as)
+    (hr : run c (init c) as = some s) (hd : ¬ died s) :
     taskObs s.obs = ((refStream c).take s.rcvdIdx).map expected ∧
     (Obs.stop ∈ s.obs → taskObs s.obs = (refStream c).map expected) := by
-  have ha := take_snapshot_assertion_holds_map c hv hm hio as s hnr hr hd hF
+  have ha := take_snapshot_assertion_holds_map c hv hm hio as s hnr hr hd
   have h1 := taskObs_eq_map c hv hm hio as s hnr hr hd ha
   refine ⟨by simpa only [refStream, hm, Bool.false_eq_true, if_false] using h1, fun hstop => ?_⟩
   exact (epoch_complete_map c hv hm hio as s hnr hr hd ha hstop).1
 
-/-- **C05 `snapshot_fields`.**  What `state_dict()` reports after the `n`-th yield is a function of `n`
-only: `snapshot_step` is the largest multiple of the interval `≤ n` (0 without interval),
-`steps_since_snapshot = n − snapshot_step`; and when no fetch fails `last_yielded_worker_id` is the
-owner of the `snapshot_step`-th batch and the sampler position in the snapshot is `snapshot_step`. -/
+/-- **C05 `snapshot_fields`, map-style, every interval and every set of failing fetches.**  What
+`state_dict()` reports is a function of the number of tasks consumed (`rcvd_idx`) only: the snapshot in
+force was taken when task `m - 1` was yielded, where `m = lastDue c rcvd_idx` is the largest `m ≤ rcvd_idx`
+such that task `m - 1` carries a main snapshot (`m % interval = 0`) and did not fail (`m = 0`: the initial
+snapshot).  Its sampler position is `m`, `snapshot_step` is the number of batches yielded up to and
+including that task (`okCount c m`), `last_yielded_worker_id` is the owner of that task, and
+`steps_since_snapshot = num_yielded − snapshot_step`.  (A flagged task that fails takes no snapshot: the
+previous one stays in force.) -/
 theorem snapshot_fields_map (as : List Action) (s : State) (hnr : NoReset as)
     (hr : run c (init c) as = some s) (hd : ¬ died s) :
+    s.numYielded = (yields s.obs).length ∧ s.numYielded = okCount c s.rcvdIdx ∧
+    s.snap.main = lastDue c s.rcvdIdx ∧ s.snap.step = okCount c s.snap.main ∧
+    s.snap.lastW = (if s.snap.main = 0 then c.W - 1 else (s.snap.main - 1) % c.W) := by
+  obtain ⟨_, hs⟩ := reach_map c hv hm hio as s hnr hr hd
+  exact ⟨hs.ny, hs.cnt, hs.main, hs.step, hs.lastW⟩
+
+/-- **C05 `snapshot_fields`, map-style, no failing fetch** (the pre-f1014eb formulation, a corollary): what
+`state_dict()` reports after the `n`-th yield is a function of `n` only: `snapshot_step` is the largest
+multiple of the interval `≤ n` (0 without interval), `last_yielded_worker_id` is the owner of the
+`snapshot_step`-th batch and the sampler position in the snapshot is `snapshot_step`. -/
+theorem snapshot_fields_map_errFree (as : List Action) (s : State) (hnr : NoReset as)
+    (hr : run c (init c) as = some s) (hd : ¬ died s) (he : errFree c) :
     s.numYielded = (yields s.obs).length ∧
     s.snap.step = (if c.interval = 0 then 0 else c.interval * (s.numYielded / c.interval)) ∧
-    (errFree c → s.snap.lastW = (if s.snap.step = 0 then c.W - 1 else (s.snap.step - 1) % c.W) ∧
-                 s.snap.main = s.snap.step) := by
+    s.snap.lastW = (if s.snap.step = 0 then c.W - 1 else (s.snap.step - 1) % c.W) ∧
+    s.snap.main = s.snap.step := by
   obtain ⟨_, hs⟩ := reach_map c hv hm hio as s hnr hr hd
-  refine ⟨hs.ny, ?_, hs.lw⟩
+  refine ⟨hs.ny, ?_, hs.lw he⟩
   by_cases h0 : c.interval = 0
   · simp [h0, hs.st0 h0]
-  · obtain ⟨⟨k, hk⟩, h2, h3⟩ := hs.st h0
+  · obtain ⟨⟨k, hk⟩, h2, h3⟩ := hs.st he h0
     simp only [h0, if_false]
     rw [hk] at h2 h3 ⊢
     congr 1
@@ -149,14 +167,19 @@ theorem kill_detected (c : Cfg) (s : State) (w : Nat) (k : Worker) (hph : s.phas
   obtain ⟨s', h1, h2, h3⟩ := pollTimeout_detects c s w k hph hq hw hup hk hdead
   exact ⟨s', h1, by unfold died; rw [h2]; simp, h3⟩
 
-/-- **C10 `error_position`, full statement** (all intervals, all failing sets, every schedule): not a
-theorem of the current code. -/
+/-- **C10 `error_position`, full statement** (all intervals, all failing sets, every schedule). -/
 def error_position_statement : Prop :=
   ∀ (c : Cfg), c.Valid → c.iterable = false → c.inOrder = true →
   ∀ (as : List Action) (s : State), NoReset as → run c (init c) as = some s → ¬ died s →
     taskObs s.obs = ((refStream c).take s.rcvdIdx).map expected
 
-/-- The C10-a witness: `snapshot_every_n_steps = 2`, two workers, the third task fails. -/
+/-- The full statement is a theorem since repo fix f1014eb (it was refuted by `c10a` before: known
+finding C10-a). -/
+theorem error_position : error_position_statement :=
+  fun c hv hm hio as s hnr hr hd => (error_position_map c hv hm hio as s hnr hr hd).1
+
+/-- The former C10-a witness, kept as a regression example: `snapshot_every_n_steps = 2`, two workers, the
+third task fails. -/
 def c10a : Cfg :=
   { W := 2, P := 2, interval := 2, inOrder := true, iterable := false, persistent := false, shards := []
     batches := [.ok 10, .ok 11, .err, .ok 13, .ok 14, .ok 15] }
@@ -165,26 +188,20 @@ def c10aRun : List Action :=
   [.work 0, .work 1, .work 0, .work 1, .next, .recv, .next, .recv, .next, .recv, .next, .recv,
    .work 0, .work 1, .next, .recv, .next, .recv, .next]
 
-/-- On the witness the consumer sees: 10, 11, error, 13, AssertionError (batch 14 is lost), 15, stop. -/
-theorem c10a_observed :
+/-- Regression example.  Before f1014eb the consumer saw `10, 11, error, 13, AssertionError, 15, stop`
+(batch 14 lost: the yield count had drifted from the tasks carrying a main snapshot).  Now the observation
+sequence is complete.  The `state_dict()` calls show the snapshots in force: after `13` (task 3, the second
+flagged task) `snapshot_step = 3`, sampler position 4; after `15` (task 5) `snapshot_step = 5`, position 6. -/
+example :
     (run c10a (init c10a) c10aRun).map (·.obs) =
-      some [.item 10, .item 11, .error, .item 13, .assertion, .item 15, .stop] := by decide
-
-/-- **Negation witness** for `error_position_statement` (known defect C10-a: an error does not advance
-`_num_yielded`, so the dispatch-time snapshot flags and the yield-time snapshot test fall out of step). -/
-theorem error_position_statement_false : ¬ error_position_statement := by
-  intro h
-  have hobs := c10a_observed
-  match hrun : run c10a (init c10a) c10aRun with
-  | none => rw [hrun] at hobs; cases hobs
-  | some s =>
-    rw [hrun] at hobs
-    simp only [Option.map_some, Option.some.injEq] at hobs
-    have hd : ¬ died s := by simp [died, hobs]
-    have := h c10a ⟨by decide, by decide⟩ rfl rfl c10aRun s (by simp [NoReset, c10aRun]) hrun hd
-    have hmem : Obs.assertion ∈ taskObs s.obs := by rw [hobs]; decide
-    rw [this] at hmem
-    exact assertion_not_mem_map_expected _ hmem
+      some [.item 10, .item 11, .error, .item 13, .item 14, .item 15, .stop] ∧
+    (run c10a (init c10a) (c10aRun.take 12 ++ [.stateDict])).map (·.obs.getLast?) =
+      some (some (.sd 3 0 1 4 [⟨1, false⟩, ⟨2, false⟩])) ∧
+    (run c10a (init c10a) (c10aRun ++ [.stateDict])).map (·.obs.getLast?) =
+      some (some (.sd 5 0 1 6 [⟨3, false⟩, ⟨3, false⟩])) ∧
+    c10a.Valid ∧ NoReset c10aRun ∧ lastDue c10a 4 = 4 ∧ okCount c10a 4 = 3 ∧ lastDue c10a 3 = 2 := by
+  refine ⟨by decide, by decide, by decide, ⟨by decide, by decide⟩, by simp [NoReset, c10aRun], by decide, by decide,
+    by decide⟩
 
 /-- Non-vacuity of `delta_at_yield_map`: interval 3, two workers: after four consumed tasks worker 0 has
 reported its state after its 2nd fetch (task 2 carried a delta), worker 1 after its 1st (task 1 did,
@@ -196,7 +213,8 @@ example :
   decide
 
 /-! Non-vacuity: the hypotheses of the map-style theorems are satisfied by a run with out-of-order
-arrival (worker 1 answers before worker 0), a `state_dict` call and a failing fetch at interval 1. -/
+arrival (worker 1 answers before worker 0), a `state_dict` call and a failing fetch at interval 1
+(`c10a` above: a failing fetch at interval 2). -/
 
 def exCfg : Cfg :=
   { W := 2, P := 1, interval := 1, inOrder := true, iterable := false, persistent := false, shards := []
@@ -206,10 +224,9 @@ def exRun : List Action :=
   [.work 1, .next, .work 0, .recv, .recv, .stateDict, .next, .work 0, .next, .recv, .next]
 
 example : exCfg.Valid ∧ exCfg.iterable = false ∧ exCfg.inOrder = true ∧ NoReset exRun ∧
-    (exCfg.interval ≤ 1 ∨ errFree exCfg) ∧
     (run exCfg (init exCfg) exRun).map (·.obs) =
       some [.item 10, .sd 1 0 0 1 [⟨1, false⟩, ⟨0, false⟩], .error, .item 12, .stop] := by
-  refine ⟨⟨by decide, by decide⟩, rfl, rfl, by simp [NoReset, exRun], Or.inl (by decide), by decide⟩
+  refine ⟨⟨by decide, by decide⟩, rfl, rfl, by simp [NoReset, exRun], by decide⟩
 
 /-- Non-vacuity of `kill_detected` / `kill_safe`: worker 0 is killed before it answers anything; the
 consumer blocks in `next()`, the liveness poll raises the worker-died error, nothing was yielded. -/
@@ -337,28 +354,35 @@ theorem epoch_complete (c : Cfg) (hv : c.WF) (hio : c.inOrder = true) (as : List
   · exact epoch_complete_iter c ⟨hv.1, hv.2 hit⟩ hit hio as s hnr hr hd ha hstop
   · exact epoch_complete_map c hv.1 hit hio as s hnr hr hd ha hstop
 
-/-- **C05 `snapshot_fields`, both kinds.**  What `state_dict()` reports after the `n`-th yield depends on
-`n` only, for every schedule: `n = _num_yielded` is the number of batches yielded,
-`snapshot_step = interval·⌊n / interval⌋` (0 without interval), `steps_since_snapshot = n − snapshot_step`. -/
+/-- **C05 `snapshot_fields`, both kinds.**  `_num_yielded` is the number of batches yielded; and for iterable
+datasets, or when no fetch fails, what `state_dict()` reports after the `n`-th yield depends on `n` only, for
+every schedule: `snapshot_step = interval·⌊n / interval⌋` (0 without interval), `steps_since_snapshot =
+n − snapshot_step`.  (Map-style with failing fetches: snapshots follow the tasks, not the yields, see
+`snapshot_fields_map`; e.g. `c10a` reports `snapshot_step = 3` at interval 2.) -/
 theorem snapshot_fields (c : Cfg) (hv : c.WF) (hio : c.inOrder = true) (as : List Action) (s : State)
     (hnr : NoReset as) (hr : run c (init c) as = some s) (hd : ¬ died s) :
     s.numYielded = (yields s.obs).length ∧
-    s.snap.step = (if c.interval = 0 then 0 else c.interval * (s.numYielded / c.interval)) ∧
-    s.numYielded - s.snap.step = (if c.interval = 0 then s.numYielded else s.numYielded % c.interval) := by
-  have hgs : GS c s := by
+    (c.iterable = true ∨ errFree c →
+      s.snap.step = (if c.interval = 0 then 0 else c.interval * (s.numYielded / c.interval)) ∧
+      s.numYielded - s.snap.step = (if c.interval = 0 then s.numYielded else s.numYielded % c.interval)) := by
+  have key : s.numYielded = (yields s.obs).length ∧ (c.interval = 0 → s.snap.step = 0) ∧
+      (c.iterable = true ∨ errFree c → c.interval ≠ 0 →
+        c.interval ∣ s.snap.step ∧ s.snap.step ≤ s.numYielded ∧ s.numYielded < s.snap.step + c.interval) := by
     rcases Bool.eq_false_or_eq_true c.iterable with hit | hit
     · rcases run_gs_iter c as (init c) s (hv.2 hit) hit hio hnr
         (Or.inl ⟨init_invI c ⟨hv.1, hv.2 hit⟩ hit hio, init_gs c hv.1⟩) hr with h | h
-      · exact h.2
+      · exact ⟨h.2.ny, h.2.st0, fun _ h0 => h.2.st h0 hit⟩
       · exact absurd h hd
-    · rcases run_gs_map c as (init c) s hv.1 hit hio hnr
-        (Or.inl ⟨init_invM c hv.1 hit hio, init_gs c hv.1⟩) hr with h | h
-      · exact h.2
-      · exact absurd h hd
-  refine ⟨hgs.ny, ?_⟩
+    · obtain ⟨_, hs⟩ := reach_map c hv.1 hit hio as s hnr hr hd
+      refine ⟨hs.ny, hs.st0, fun hF h0 => ?_⟩
+      rcases hF with hF | hF
+      · rw [hit] at hF; cases hF
+      · exact hs.st hF h0
+  obtain ⟨hny, hst0, hst⟩ := key
+  refine ⟨hny, fun hF => ?_⟩
   by_cases h0 : c.interval = 0
-  · simp [h0, hgs.st0 h0]
-  · obtain ⟨⟨k, hk⟩, h2, h3⟩ := hgs.st h0
+  · simp [h0, hst0 h0]
+  · obtain ⟨⟨k, hk⟩, h2, h3⟩ := hst hF h0
     simp only [h0, if_false]
     have hpos : 0 < c.interval := Nat.pos_of_ne_zero h0
     have hdiv : s.numYielded / c.interval = k := by
